@@ -326,6 +326,7 @@ func check(id, tier string) int {
 		}
 		if okRuns < need {
 			unrepro = append(unrepro, fmt.Sprintf("%s (%d/5 replays)", sig, okRuns))
+			lines = append(lines, fmt.Sprintf("UNREPRODUCED: property=%s sig=%s reproduced in %d of 5 replays of %s (not counted as a violation; see the evidence file)", id, sig, okRuns, rf))
 			continue
 		}
 		nviol++
